@@ -53,12 +53,18 @@ class DefUse:
         self.body = body
         self.defs = defaultdict(list)     # local -> [(blk id, 'stmt'|'term', obj)]
         self.uses = defaultdict(list)     # local -> [(blk id, kind, obj)]
+        self.stores = defaultdict(list)   # pointer local -> stores through it
         for bid, blk in body.blocks.items():
             for s in blk.stmts:
                 if s.kind == 'assign':
                     bl = base_local(s.lhs)
                     if bl is not None:
-                        self.defs[bl].append((bid, 'stmt', s))
+                        if '(*_%d)' % bl in s.lhs:
+                            # store through a pointer: not a definition of the pointer local
+                            self.stores[bl].append((bid, 'stmt', s))
+                            self.uses[bl].append((bid, 'stmt', s))
+                        else:
+                            self.defs[bl].append((bid, 'stmt', s))
                     for u in locals_in(s.rhs):
                         self.uses[u].append((bid, 'stmt', s))
                     # projections on lhs also use locals (index)
@@ -189,6 +195,8 @@ class DefUse:
             if m:
                 root, steps = self.access_path(m.group(1), depth + 1)
                 return (root, steps + fields)
+            if rhs.startswith('deref_copy '):
+                rhs = 'copy ' + rhs[len('deref_copy '):]
             if rhs.startswith(('move ', 'copy ')):
                 root, steps = self.access_path(rhs, depth + 1)
                 return (root, steps + fields)
@@ -205,3 +213,137 @@ class DefUse:
                 root, steps = self.access_path(obj.args[0], depth + 1)
                 return (root, steps + fields)
         return (('call', f, bid), fields)
+
+
+# ---------------------------------------------------------------------------- typed places
+def parse_place(text):
+    """Parse a MIR place into (base_local, [projection...]) with projections
+    ('deref',) | ('field', idx, type_text) | ('downcast', variant) | ('index', text)."""
+    text = operand_place(text.strip())
+    pos = [0]
+
+    def parse():
+        s = text
+        i = pos[0]
+        projs = []
+        if s.startswith('(*', i):
+            pos[0] = i + 2
+            base, inner = parse()
+            assert s[pos[0]] == ')', (text, pos[0])
+            pos[0] += 1
+            projs = inner + [('deref',)]
+        elif s.startswith('(', i):
+            pos[0] = i + 1
+            base, inner = parse()
+            j = pos[0]
+            if s.startswith(' as ', j):
+                k = s.index(')', j)
+                projs = inner + [('downcast', s[j + 4:k])]
+                pos[0] = k + 1
+            elif s[j] == '.':
+                m = re.match(r'\.(\d+): ', s[j:])
+                idx = int(m.group(1))
+                j2 = j + m.end()
+                # type runs to the matching ')'
+                depth = 0
+                k = j2
+                while k < len(s):
+                    c = s[k]
+                    if c in '([{<':
+                        depth += 1
+                    elif c == '>' and s[k - 1] in '-=':
+                        pass
+                    elif c in ')]}>':
+                        if depth == 0 and c == ')':
+                            break
+                        depth -= 1
+                    k += 1
+                projs = inner + [('field', idx, s[j2:k])]
+                pos[0] = k + 1
+            else:
+                raise ValueError('bad place %r at %d' % (text, j))
+        else:
+            m = re.match(r'_(\d+)', s[i:])
+            if not m:
+                raise ValueError('bad place %r at %d' % (text, i))
+            base = int(m.group(1))
+            pos[0] = i + m.end()
+        # trailing index / subslice projections
+        while pos[0] < len(s) and s[pos[0]] == '[':
+            k = s.index(']', pos[0])
+            projs = projs + [('index', s[pos[0] + 1:k])]
+            pos[0] = k + 1
+        return base, projs
+    try:
+        return parse()
+    except (ValueError, AssertionError, IndexError):
+        return base_local(text), []
+
+
+def typed_path(body, du, operand, depth=0):
+    """Like DefUse.access_path but keeps, for every field step, the type that owns the field:
+    returns (root, [(idx, owner_type_text), ...])."""
+    place = operand_place(operand)
+    if place.startswith('const ') or depth > 25:
+        return (('const', place), [])
+    bl, projs = parse_place(place)
+    if bl is None:
+        return (('unknown', place), [])
+    steps = []
+    cur_ty = body.local_type(bl)
+    for p in projs:
+        if p[0] == 'field':
+            steps.append((p[1], cur_ty))
+            cur_ty = p[2]
+        elif p[0] == 'deref':
+            cur_ty = _deref_ty(cur_ty)
+        elif p[0] == 'downcast':
+            cur_ty = (cur_ty or '') + '::' + p[1]
+    nargs = {n for (n, _t) in body.args}
+    if bl in nargs:
+        return (('arg', bl, body.local_type(bl)), steps)
+    d = du.single_def(bl)
+    if d is None:
+        return (('local', bl, body.local_type(bl)), steps)
+    bid, kind, obj = d
+    if kind == 'stmt':
+        rhs = obj.rhs.strip()
+        if rhs.startswith('deref_copy '):
+            rhs = 'copy ' + rhs[len('deref_copy '):]
+        m = re.match(r'^&(?:mut |raw const |raw mut )?(.*)$', rhs)
+        if m:
+            root, st = typed_path(body, du, m.group(1), depth + 1)
+            return (root, st + steps)
+        if rhs.startswith(('move ', 'copy ')):
+            root, st = typed_path(body, du, rhs, depth + 1)
+            return (root, st + steps)
+        m = re.match(r'^(?:move|copy) (.*) as .* \((?:IntToInt|PtrToPtr|Transmute)\)$', rhs)
+        if m:
+            root, st = typed_path(body, du, m.group(1), depth + 1)
+            return (root, st + steps)
+        return (('local', bl, body.local_type(bl)), steps)
+    f = obj.func or ''
+    if re.search(r' as [\w:]*(Deref|DerefMut|__Deref)>::deref(_mut)?$', f) or \
+            re.search(r'::option::Option::<.*>::as_ref$', f) or \
+            re.search(r' as [\w:]*(AsRef|Borrow)<.*>>::(as_ref|borrow)$', f) or \
+            re.search(r' as [\w:]*Clone>::clone$', f):
+        if obj.args:
+            root, st = typed_path(body, du, obj.args[0], depth + 1)
+            return (root, st + steps)
+    return (('call', f, bid), steps)
+
+
+def _deref_ty(ty):
+    if ty is None:
+        return None
+    t = ty.strip()
+    m = re.match(r"^&(?:'[a-z_]+ )?(?:mut )?(.*)$", t)
+    if m:
+        return m.group(1)
+    m = re.match(r'^(?:std|alloc)::(?:sync::Arc|boxed::Box|rc::Rc)<(.*)>$', t)
+    if m:
+        return m.group(1)
+    m = re.match(r"^std::sync::(?:poison::)?(?:MutexGuard|RwLockReadGuard|RwLockWriteGuard)<'_, (.*)>$", t)
+    if m:
+        return m.group(1)
+    return t
